@@ -100,6 +100,19 @@ def main():
             pyrtl.input_from_blif(text, merge_io_vectors=True)
         blk = pyrtl.working_block()
         inputs = sorted(blk.wirevector_subset(Input), key=lambda w_: w_.name)
+    elif kind == 'bench':
+        # an ISCAS .bench file in which several outputs are named like inputs (as in c1196, b18): the importer renames
+        # those outputs, and which output gets which name must be a function of the file only
+        pyrtl.reset_working_block()
+        ins_n = ['a', 'b', 'c', 'd']
+        same = rng.sample(ins_n, 4)
+        lines = ['INPUT(%s)' % n for n in ins_n] + ['OUTPUT(%s)' % n for n in same] + ['OUTPUT(x)', 'OUTPUT(y)']
+        lines += ['x = AND(%s, %s)' % tuple(rng.sample(ins_n, 2)), 't = DFF(x)', 'y = XOR(t, %s)' % rng.choice(ins_n)]
+        import contextlib
+        with contextlib.redirect_stdout(io.StringIO()):
+            pyrtl.input_from_iscas_bench('\n'.join(lines) + '\n')
+        blk = pyrtl.working_block()
+        inputs = sorted(blk.wirevector_subset(Input), key=lambda w_: w_.name)
     elif kind == 'names':
         # names that tie under a natural-sort key (x1 / x01, a / A) and several names the exporter must
         # sanitise: the emitted text must not depend on the order in which sets happen to iterate
@@ -124,6 +137,16 @@ def main():
         tmp <<= ins[0][0:1].zero_extended(2)
         o = Output(2, 'w-2')
         o <<= tmp
+        # wires that are legitimately named like the identifiers the simulators / exporters make up for invalid names
+        gnames = ['_fastsim_tmp_0', '_fastsim_tmp_1', '_fastsim_tmp_2', '_ver_out_tmp_0', '_ver_out_tmp_1', '_sani_temp0']
+        rng.shuffle(gnames)
+        parts = []
+        for k, n in enumerate(gnames[:rng.randint(2, 6)]):
+            g = pyrtl.WireVector(2, n)
+            g <<= (ins[k % len(ins)][0:1].zero_extended(2) + k) ^ regs[k % len(regs)][0:2]
+            parts.append(g)
+        o = Output(2 * len(parts), 'o gen')
+        o <<= pyrtl.concat_list(parts)
         blk = pyrtl.working_block()
         inputs = ins
     else:
@@ -152,8 +175,12 @@ def main():
     sim = pyrtl.Simulation(block=blk, memory_value_map=memmap or {})
     conflict = False
     wnets = sorted((n for n in blk.logic if n.op == '@'), key=str)
+    bench_obs = []
     for s in steps:
         sim.step(dict(s))
+        if kind == 'bench':
+            # renamed outputs get tmpN names, which the default tracer leaves out: observe every Output by name
+            bench_obs.append(sorted((o_.name, sim.inspect(o_)) for o_ in blk.wirevector_subset(pyrtl.Output)))
         # two enabled write ports, same memory and address, different data: the outcome is unspecified
         seen = {}
         for n in wnets:
@@ -167,13 +194,16 @@ def main():
         print(json.dumps({'skip': 'write-conflict'}))
         return
     out['trace'] = {k: v for k, v in sorted(sim.tracer.trace.items())}
-    for add_reset in (True, False, 'asynchronous'):
+    if kind == 'bench':
+        out['outputs-by-name'] = bench_obs
+    if kind != 'bench':       # (the Verilog exporter refuses the tmpN names the .bench importer gives renamed outputs)
+        for add_reset in (True, False, 'asynchronous'):
+            buf = io.StringIO()
+            pyrtl.output_to_verilog(buf, add_reset=add_reset, block=blk)
+            out['verilog:%s' % add_reset] = buf.getvalue()
         buf = io.StringIO()
-        pyrtl.output_to_verilog(buf, add_reset=add_reset, block=blk)
-        out['verilog:%s' % add_reset] = buf.getvalue()
-    buf = io.StringIO()
-    pyrtl.output_verilog_testbench(buf, sim.tracer, block=blk)
-    out['testbench'] = buf.getvalue()
+        pyrtl.output_verilog_testbench(buf, sim.tracer, block=blk)
+        out['testbench'] = buf.getvalue()
     buf = io.StringIO()
     sim.tracer.print_vcd(buf)
     out['vcd'] = buf.getvalue()
